@@ -134,6 +134,13 @@ thread_local! {
 	static LAST_PANIC: RefCell<Option<String>> = RefCell::new(None);
 }
 
+pub static ALL_PANICS: std::sync::Mutex<Vec<String>> = std::sync::Mutex::new(Vec::new());
+
+/// Panics seen on any thread since the last call.
+pub fn take_panics() -> Vec<String> {
+	ALL_PANICS.lock().map(|mut g| std::mem::take(&mut *g)).unwrap_or_default()
+}
+
 pub fn install_panic_hook() {
 	std::panic::set_hook(Box::new(|info| {
 		let loc = info.location().map(|l| format!("{}:{}", l.file(), l.line())).unwrap_or_default();
@@ -146,6 +153,13 @@ pub fn install_panic_hook() {
 		};
 		if std::env::var("PDBV_BACKTRACE").is_ok() {
 			eprintln!("panic at {loc}: {msg}\n{}", std::backtrace::Backtrace::force_capture());
+		}
+		// panics of other threads (the library's workers) are collected too
+		if let Ok(mut g) = ALL_PANICS.lock() {
+			if g.len() < 16 {
+				let loc2 = loc.rsplit_once("/src/").map(|(_, r)| format!("src/{r}")).unwrap_or(loc.clone());
+				g.push(format!("{loc2}: {msg}"));
+			}
 		}
 		LAST_PANIC.with(|p| *p.borrow_mut() = Some(format!("{loc}|{msg}")));
 	}));
